@@ -78,6 +78,14 @@ def attempt(sim: BuilderSim, a, kind):
         x = ch.pick(others, "fault-src-actor")
         w = ch.pick([w for w in x.pool if not w.lin], "fault-wire")
         how = ch.draw(5, "fault-entry")
+        if isinstance(a.b, TrackedDfg) and ch.coin(1, 2, "fault-via-tracked-index"):
+            # the offending wire is first tracked (tracking a wire is just remembering it) and then used by its index
+            i = a.b.track_wire(w.wire)
+            ctx.ev(a.id, "track_wire", f"wire from actor {x.id}", i)
+            ctx.probe("foreign_wire_used_by_tracked_index")
+            if ch.coin(1, 2, "fault-tracked-outputs"):
+                return (lambda: a.b.set_indexed_outputs(i)), exp, f"set_indexed_outputs({i}) where index {i} holds a wire from actor {x.id}"
+            return (lambda: a.b.add(t.ops.Noop()(i))), exp, f"add(Noop({i})) where index {i} holds a wire from actor {x.id}"
         if how >= 3:
             # the insert_* entry points: a finished, detached container is attached with the offending wire as its input
             det, nm = detached_container(w.ty, how == 4)
@@ -102,6 +110,13 @@ def attempt(sim: BuilderSim, a, kind):
         for w in list(a.pool):
             if w.lin and not w.used:
                 a.discharge(w)
+        if ch.coin(1, 3, "fault-on-second-set_outputs"):
+            # the case first sets its outputs as established, then sets them again with another row
+            good = [a.find(ty) for ty in a.required]
+            a.b.set_outputs(*[w.wire for w in good])
+            ctx.ev(a.id, "set_outputs (as established)", len(good))
+            ctx.probe("case_outputs_set_a_second_time")
+            return (lambda: a.b.set_outputs(*[w.wire for w in wires])), ["ConditionalError"], "a second set_outputs on the same case with a row differing from the established one"
         return (lambda: a.b.set_outputs(*[w.wire for w in wires])), ["ConditionalError"], "set_outputs with a row differing from the first case's"
     if kind in ("case-index-out-of-range", "case-built-twice", "conditional-exit-unbuilt"):
         if not isinstance(a, CondCtl):
@@ -129,6 +144,10 @@ def attempt(sim: BuilderSim, a, kind):
         i, k = ch.pick(cands, "fault-branch")
         src = a.blocks[i].b.parent_node.out(k)
         if ch.coin(1, 2, "fault-via-branch"):
+            if ch.coin(1, 2, "fault-exit-handle-rebuilt"):
+                from hugr.hugr.node_port import Node
+                ex = Node(a.b.exit.idx)  # an equal handle built by the client names the same exit block
+                return (lambda: a.b.branch(src, ex)), ["MismatchedExit"], f"branch(block{i}[{k}], Node(exit.idx)) with a different row"
             return (lambda: a.b.branch(src, a.b.exit)), ["MismatchedExit"], f"branch(block{i}[{k}], exit) with a different row"
         return (lambda: a.b.branch_exit(src)), ["MismatchedExit"], f"branch_exit(block{i}[{k}]) with a different row"
     if kind == "function-outputs-differ":
@@ -276,7 +295,8 @@ def run(ctx):
     ch = ctx.ch
     kind = KINDS[ch.draw(len(KINDS), "fault-kind")]
     root = None
-    if kind == "untracked-index" or (kind == "int-wire-untracked-builder" and ch.coin(1, 2, "root-tracked")):
+    if kind == "untracked-index" or (kind == "int-wire-untracked-builder" and ch.coin(1, 2, "root-tracked")) \
+            or (kind == "no-sibling-ancestor" and ch.coin(1, 2, "root-tracked")):
         root = "tracked"
     elif kind in ("poly-no-instantiation", "poly-wrong-arg-count", "function-outputs-differ"):
         root = "module"
@@ -346,9 +366,9 @@ def run(ctx):
             ctx.violate("accepted", kind, {"call": desc, "actor": getattr(a, "kind", type(a).__name__)})
         elif expected is not None and not any(x in mro for x in expected):
             ctx.violate("wrong-exception", f"{kind}:{outcome}", {"call": desc, "expected": expected})
-        if not ctx.violations and outcome != "returned" and kind in ("no-sibling-ancestor", "outside-cfg") and not desc.startswith("insert_") and ch.coin(1, 3, "complete-the-program-after"):
-            # the refused call left an operation without its inputs behind (not the insert_* entry points: what they leave
-            # behind is a finished container); the caller catches the error and finishes
+        if not ctx.violations and outcome != "returned" and kind in ("no-sibling-ancestor", "outside-cfg") and desc.startswith(("add_op(", "add(", "add_nested(")) and ch.coin(1, 3, "complete-the-program-after"):
+            # the refused call left an operation without its inputs behind (only the add_op / add / add_nested carriers:
+            # insert_* leaves a finished container behind, set_indexed_outputs nothing); the caller catches the error and finishes
             # the program: what is serialised then still contains that incomplete operation
             state["finish"] = True
             return False
